@@ -55,8 +55,15 @@ META = {
                     "of the regular region (measured worst case 1.7 eps·(1/cos pitch))"],
     "partial": ["rounding: the theorems are over exact real arithmetic; agreement of the float code with the model to 16 eps "
                 "(rotation, scale), exact (translation) is measured on the generated inputs",
-                "rejection clause near the tolerance: inside the guard band |dev/tol − 1| ≤ 16·eps_dtype/atol either verdict is accepted",
-                "non-mutation of the argument is monitored on the generated calls, not proved"],
+                "rejection clause near the tolerance: theorems guard_band_accept / guard_band_reject prove that a float evaluation within δ of "
+                "the exact R Rᵀ has the exact verdict outside [tol−δ, tol+δ]; the size of δ (16·eps_dtype, relative band 16·eps/atol) is measured, "
+                "inside the band either verdict is accepted (exactly representable coincidences with the tolerance are decided: reject corpus `exact-tolerance`)",
+                "non-mutation of the argument is monitored on every generated call (bit-for-bit, incl. the storage around views), not proved — "
+                "the model consists of pure functions, it has no notion of aliasing",
+                "inside the gimbal band only the third row of the reconstructed matrix is proved (euler_band_third_row_partial) and the exact-lock "
+                "case (euler_gimbal_lock_exact); the full O(sqrt(2 eps)) bound is measured (oracle `gimbal`, worst 1.12·acos|t2|)",
+                "the round trip mat2SO3∘matrix multiplies a norm defect by up to 3 (theorem roundtrip_norm_amplification): the property is "
+                "claimed for elements unit to 1 ulp, not for iterated conversions"],
 }
 
 LAYOUTS = ["33", "34", "44"]
@@ -64,7 +71,8 @@ SHAPES = [(), (1,), (2,), (3,), (5,), (2, 3), (3, 2), (2, 2), (1, 3), (2, 3, 4),
           (4,), (3, 3), (4, 4), (3, 4), (4, 3), (7,), (1, 1), (3, 1), (13,)]   # incl. sizes equal to the matrix / quaternion dimensions
 TOLS = [(1e-5, 1e-5), (1e-5, 1e-5), (1e-3, 1e-3), (0.0, 1e-4), (1e-2, 1e-5)]
 K_ROT = 16.0
-MSG = (("not all orthogonal", "notOrthogonal"), ("determinant are not all equal", "detNotOne"), ("not full rank", "notFullRank"))
+MSG = (("not all orthogonal", "notOrthogonal"), ("determinant are not all equal", "detNotOne"), ("not full rank", "notFullRank"),
+       ("at least 2 dimensions", "badShape"), ("Input size must be", "badShape"), ("Input ltype must be", "badLtype"))
 
 
 def P():
@@ -238,11 +246,32 @@ def classify_exc(e):
     return type(e).__name__
 
 
-def model_line(case, M64, n):
-    """c11.from_matrix line for the float matrix the implementation saw (M64: (n, r, c) float64 tensor)"""
+def call_glue(case):
+    """(entry, given) of the call as the MODEL sees it: which public function, which optional arguments were passed"""
+    api = case.get("api", "direct")
+    entry = "from_matrix" if api in ("from_matrix", "list", "from_matrix_pos", "from_matrix_pos1", "partial_fm") else "direct"
+    given = ["check", "rtol", "atol"]
+    if api == "defaults":
+        entry, given = ("from_matrix" if case.get("ci", 0) % 2 else "direct"), []
+    elif api in ("partial_fm", "partial_direct"):
+        given = list(case.get("given", []))
+    return entry, given
+
+
+def model_line(case, M64, n, explicit=False):
+    """`c11.call` line: the calling glue (shape validation, dispatch, defaulting of the arguments the caller left out:
+    sent as `-`) and the conversion, on the float matrix the implementation saw (M64: (n, r, c) float64 tensor).
+    `explicit=True` passes all three arguments (used for the tolerance-neighbourhood evaluations)."""
+    entry, given = call_glue(case)
+    if explicit:
+        given = ["check", "rtol", "atol"]
+    rows, cols = {"33": (3, 3), "34": (3, 4), "44": (4, 4)}[case["lay"]]
+    rank = len(case.get("shape", [n])) + 2 if "shape" in case else 3
+    chk = ("1" if case["check"] else "0") if "check" in given else "-"
+    rt = common.to_wire(case["rtol"]) if "rtol" in given else "-"
+    at = common.to_wire(case["atol"]) if "atol" in given else "-"
     flat = M64.reshape(-1).tolist()
-    return (f"c11.from_matrix {case['type']} {case['lay']} {1 if case['check'] else 0} {n} "
-            + common.wire_list([case["rtol"], case["atol"]] + flat))
+    return f"c11.call {entry} {case['type']} {rank} {rows} {cols} {n} {chk} {rt} {at} " + common.wire_list(flat)
 
 
 def in_mat(case, dtype):
@@ -637,9 +666,9 @@ def prep_reject(ctx: Ctx, case):
     # ---- correspondence (verdict and message kind), model evaluated at tol·(1±band) too
     b = band_of(case)
     lines = []
-    for f in ((1.0, 1 + b, 1 - b) if pv in ("band", "any") or b > 1e-3 else (1.0,)):
+    for f in ((1.0,) if case.get("exact") else (1.0, 1 + b, 1 - b) if pv in ("band", "any") or b > 1e-3 else (1.0,)):
         c2 = dict(case, rtol=case["rtol"] * f, atol=case["atol"] * f)
-        lines.append(model_line(c2, M64, n))
+        lines.append(model_line(c2, M64, n, explicit=(f != 1.0)))
 
     # a determinant within the kernel's contract error of 0 has an unpredictable float cube root (tiny, 0 or NaN):
     # which ValueError is raised (or, with check=False, what garbage is returned) is then not determined by the model
@@ -800,6 +829,7 @@ def prep_euler(ctx: Ctx, case):
     Qt = torch.tensor(case["data"], dtype=torch.float64).reshape(shape + (4,)).to(D)
     X = p.SO3(Qt)
     mon = common.PurityMonitor()
+    form_used = "method_kw"
     try:
         form = case.get("form", ["method_kw", "method_pos", "fn_kw", "fn_pos", "default"][case["ci"] % 5])
         if form == "default" and case["eeps"] != 2e-4:
@@ -808,6 +838,7 @@ def prep_euler(ctx: Ctx, case):
                 "fn_kw": lambda x: p.euler(x, eps=case["eeps"]), "fn_pos": lambda x: p.euler(x, case["eeps"]),
                 "default": lambda x: p.euler(x) if case["ci"] % 2 else x.euler()}[form]
         ctx.count(f"euler.form.{form}")
+        form_used = form
         A = mon.call("euler", call, X)
     except Exception as e:
         ctx.fail(case, f"raises: euler() on shape {shape} {dtype} raised {type(e).__name__}: {str(e)[:100]}")
@@ -861,7 +892,10 @@ def prep_euler(ctx: Ctx, case):
         near = abs(abs(t2) - (1 - case["eeps"])) <= 1e-5        # regular/singular decision within rounding of the threshold?
         nvar.append(3 if near else 1)
         for f in ((1.0, 1 + 2.0 ** -20, 1 - 2.0 ** -20) if near else (1.0,)):
-            lines.append("c11.euler " + common.wire_list([1 - (1 - case["eeps"]) * f] + Qf[i].tolist()))
+            if f == 1.0:    # the call as made: `-` = eps left out by the caller (the model fills in the default)
+                lines.append("c11.eulercall " + ("-" if form_used == "default" else common.to_wire(case["eeps"])) + " " + common.wire_list(Qf[i].tolist()))
+            else:
+                lines.append("c11.euler " + common.wire_list([1 - (1 - case["eeps"]) * f] + Qf[i].tolist()))
 
     def finish(reps):
         off = 0
@@ -998,32 +1032,48 @@ def run_warn(ctx: Ctx, n):
 
 
 def run_dispatch(ctx: Ctx):
+    """the argument checks of the calling glue against the model (`c11.call`): unsupported shapes / ranks raise the shape
+    error before anything else, an ltype that is not one of the four group types raises the ltype error"""
     p = P()
-    bad_shapes = [(3,), (2, 2), (4, 3), (5, 5), (2, 3, 2), (3, 5)]
+    bad_shapes = [(3,), (2, 2), (4, 3), (5, 5), (2, 3, 2), (3, 5), (4,), (1, 3), (3, 1), (2, 4, 3), (0, 3), (3, 0)]
+    lines, metas = [], []
+
+    def probe(case, api, f, mline):
+        try:
+            f()
+            got = "ok"
+        except Exception as e:
+            got = classify_exc(e)
+            if not isinstance(e, ValueError):
+                ctx.fail(case, f"exctype: {api} raised {type(e).__name__} (not ValueError) for {case}: {str(e)[:80]}")
+        lines.append(mline)
+        metas.append((case, api, got))
     for name in U.GROUPS:
         for sh in bad_shapes:
             case = {"stream": "dispatch", "type": name, "shape": list(sh)}
-            for api, f in (("from_matrix", lambda m: p.from_matrix(m, U.ltype(name))), ("direct", lambda m: fn_of(name)(m))):
-                try:
-                    f(torch.zeros(sh, dtype=torch.float64))
-                    ctx.fail(case, f"shape: {api} accepted an input of shape {sh} for {name}")
-                except ValueError:
-                    pass
-                except Exception as e:
-                    ctx.fail(case, f"shape: {api} raised {type(e).__name__} (not ValueError) for an input of shape {sh}: {str(e)[:80]}")
+            rank, rows, cols = len(sh), (sh[-2] if len(sh) >= 2 else 0), sh[-1]
+            m = torch.zeros(sh, dtype=torch.float64)
+            probe(case, "from_matrix", lambda: p.from_matrix(m, U.ltype(name)), f"c11.call from_matrix {name} {rank} {rows} {cols} 0 - - -")
+            probe(case, "direct", lambda: fn_of(name)(m), f"c11.call direct {name} {rank} {rows} {cols} 0 - - -")
+            # a bad shape together with a bad ltype: the shape test comes first
+            probe(case | {"ltype": "None"}, "from_matrix", lambda: p.from_matrix(m, None), f"c11.call from_matrix other {rank} {rows} {cols} 0 - - -")
             ctx.note_case(("dispatch", name, sh), True)
-    for lt in (p.so3_type, p.se3_type, p.sim3_type, p.rxso3_type, None):
-        case = {"stream": "dispatch", "ltype": str(lt)}
-        try:
-            p.from_matrix(torch.eye(3, dtype=torch.float64), lt)
-            ctx.fail(case, f"ltype: from_matrix accepted ltype {lt}")
-        except ValueError:
-            pass
-        except Exception as e:
-            ctx.fail(case, f"ltype: from_matrix raised {type(e).__name__} (not ValueError) for ltype {lt}")
+    for lt in (p.so3_type, p.se3_type, p.sim3_type, p.rxso3_type, None, "SO3", 0):
+        for (r_, c_) in ((3, 3), (3, 4), (4, 4)):
+            case = {"stream": "dispatch", "ltype": str(lt), "shape": [r_, c_]}
+            eye = torch.eye(4, dtype=torch.float64)[:r_, :c_]
+            probe(case, "from_matrix", lambda: p.from_matrix(eye, lt), f"c11.call from_matrix other 2 {r_} {c_} 1 - - - " + common.wire_list(eye.reshape(-1).tolist()))
         ctx.note_case(("dispatch-ltype", str(lt)), True)
-    ctx.count("dispatch.cases", len(bad_shapes) * 4 + 5)
-
+    reps = ctx.driver.run(lines)
+    for rep, (case, api, got) in zip(reps, metas):
+        st, toks = common.parse_reply(rep)
+        want = "ok" if st == "ok" else toks
+        if got != want:
+            if want in ("badShape", "badLtype") and got == "ok":
+                ctx.fail(case, f"accepts: {api} accepted an unsupported {'shape ' + str(case.get('shape')) if want == 'badShape' else 'ltype ' + str(case.get('ltype'))} ({case.get('type', '')})")
+            else:
+                ctx.disagree("dispatch", case, f"{api}: code {got}, model {want} for {case}")
+    ctx.count("dispatch.cases", len(lines))
 
 
 # ----------------------------------------------------------------------------- deterministic corner corpus (runs first)
@@ -1141,6 +1191,28 @@ def reject_corpus():
                                 "api": ["direct", "from_matrix", "from_matrix_pos"][ci % 3], "kind": kind, "factor": fac, "bad_items": [0],
                                 "mats": [M.tolist()], "ci": ci, "corpus": True})
                     ci += 1
+    # exact coincidences with the tolerance itself: an off-diagonal entry of R Rᵀ EQUAL to atol is accepted (allclose is `<=`),
+    # one ulp above is refused; all float operations involved are exact, so the verdict is determined (no guard band)
+    for name in ("SO3", "SE3"):
+        for atol_ in (1e-5, 2.0 ** -17, 1e-3):
+            for up in (False, True):
+                for (i_, j_) in ((0, 1), (2, 0), (1, 2)):
+                    M = torch.eye(4, dtype=torch.float64)
+                    M[i_, j_] = float(torch.nextafter(torch.tensor(atol_, dtype=torch.float64), torch.tensor(1.0, dtype=torch.float64))) if up else atol_
+                    out.append({"stream": "reject", "type": name, "dtype": "float64", "lay": "44", "check": True, "rtol": 0.0, "atol": atol_,
+                                "api": ["direct", "from_matrix", "direct_pos"][ci % 3], "given": ["check", "rtol", "atol"], "kind": "exact-tolerance",
+                                "factor": 1.0, "bad_items": [0] if up else [], "mats": [M.tolist()], "ci": ci, "corpus": True, "exact": True})
+                    ci += 1
+    # scale EQUAL to atol (and one ulp either side), identity rotation: the rank test's own coincidence
+    for name in ("Sim3", "RxSO3"):
+        for atol_ in (1e-5, 2.0 ** -10):
+            for f_ in (1.0, 1 - 2.0 ** -40, 1 + 2.0 ** -40, 0.5, 2.0):
+                M = torch.eye(4, dtype=torch.float64)
+                M[:3, :3] *= atol_ * f_
+                out.append({"stream": "reject", "type": name, "dtype": "float64", "lay": "44", "check": True, "rtol": 1e-5, "atol": atol_,
+                            "api": "direct", "given": ["check", "rtol", "atol"], "kind": "tinyscale", "factor": f_, "bad_items": [0],
+                            "mats": [M.tolist()], "ci": ci, "corpus": True})
+                ci += 1
     return out
 
 
@@ -1151,11 +1223,111 @@ def run_corpus(ctx: Ctx):
     jc = reject_corpus()
     ctx.count("corpus.reject.cases", len(jc))
     run_stream(ctx, jc, prep_reject)
+    tc = tie_corpus()
+    ctx.count("corpus.tie.batches", len(tc))
+    run_stream(ctx, tc, prep_tie)
     crt, crj = callform_corpus()
     ctx.count("corpus.callforms.roundtrip", len(crt))
     ctx.count("corpus.callforms.reject", len(crj))
     run_stream(ctx, crt, prep_roundtrip)
     run_stream(ctx, crj, prep_reject)
+
+
+
+# ----------------------------------------------------------------------------- exact coincidences: which candidate wins on a tie
+
+def tie_corpus():
+    """matrices with EXACT coincidences of the quantities the mask comparisons look at: R00 == R11, R00 == -R11, R22 == atol
+    (bit for bit, each alone and combined, on either side of the other masks), the 24 cube rotations, exact quarter turns
+    about coordinate and generic axes. Unscaled types only (the comparisons act on the caller's floats); check=False for
+    the matrices whose entries were overwritten. The SIGN of the returned quaternion shows which candidate the code chose."""
+    out = []
+    r = math.sqrt(0.5)
+    bases = {"d2": _norm([0.62, -0.58, 0.33, 0.41]), "d2b": _norm([-0.5, 0.66, -0.4, 0.39]), "nd2": _norm([0.21, -0.33, 0.61, -0.68]),
+             "nd2b": _norm([-0.3, 0.12, -0.7, 0.64]), "edge": _norm([0.5, 0.5, 0.5, -0.5])}
+    quarter = [[r, 0, 0, r], [0, -r, 0, r], [0, 0, r, -r], [-r, 0, 0, -r]] + \
+              [[d * r for d in _norm(v)] + [sg * r] for v in ([1, 2, -2], [-3, 1, 0.5], [0.2, -0.1, 0.97]) for sg in (1, -1)]
+    for dtype, atol in (("float64", 1e-5), ("float64", 2.0 ** -17), ("float32", 2.0 ** -17)):
+        D = U.dt(dtype)
+        mats, tags = [], []
+        for bn, q in bases.items():
+            M0 = P().SO3(torch.tensor(q, dtype=torch.float64).to(D)).matrix().clone()
+            for kind in ("R00=R11", "R00=-R11", "R22=atol", "R22=atol&R00=R11", "R22=atol&R00=-R11", "R00=R11=0", "R22=atol,R11=R00+ulp", "R22=atol-ulp"):
+                M = M0.clone()
+                a = torch.tensor(atol, dtype=D)
+                if "R22=atol" in kind:
+                    M[2, 2] = a
+                if kind == "R22=atol-ulp":
+                    M[2, 2] = torch.nextafter(a, torch.tensor(-1.0, dtype=D))
+                if "R00=R11" in kind and "=0" not in kind:
+                    M[1, 1] = M[0, 0]
+                if "R00=-R11" in kind:
+                    M[1, 1] = -M[0, 0]
+                if kind == "R00=R11=0":
+                    M[0, 0] = 0.0
+                    M[1, 1] = 0.0
+                if kind == "R22=atol,R11=R00+ulp":
+                    M[1, 1] = torch.nextafter(M[0, 0], torch.tensor(2.0, dtype=D))
+                mats.append(M)
+                tags.append(f"{bn}:{kind}")
+        for q in octahedral_quats() + quarter:
+            mats.append(P().SO3(torch.tensor(q, dtype=torch.float64).to(D)).matrix().clone())
+            tags.append("oct/quarter")
+        M3 = torch.stack(mats)
+        for name in ("SO3", "SE3"):
+            for lay in LAYOUTS:
+                n = M3.shape[0]
+                M4 = torch.zeros(n, 4, 4, dtype=D)
+                M4[:, :3, :3] = M3
+                M4[:, :3, 3] = torch.tensor([1.5, -2.0, 0.25], dtype=D)
+                M4[:, 3, 3] = 1.0
+                out.append({"stream": "tie", "type": name, "dtype": dtype, "lay": lay, "atol": atol, "rtol": atol,
+                            "mats": slice_layout(M4, lay).double().tolist(), "tags": tags})
+    return out
+
+
+def prep_tie(ctx: Ctx, case):
+    name, dtype = case["type"], case["dtype"]
+    eps = common.EPS[dtype]
+    M64 = torch.tensor(case["mats"], dtype=torch.float64)
+    n = M64.shape[0]
+    M = M64.to(U.dt(dtype))
+    c2 = dict(case, check=False, api="direct", shape=[n])
+    try:
+        Y = call_conv(c2, M.clone()).tensor().double()
+        singles = torch.stack([call_conv(c2, M[i].clone()).tensor().double() for i in range(n)])
+    except Exception as e:
+        ctx.fail(case | {"mats": None}, f"raises: {name} conversion (check=False) of the tie corpus raised {type(e).__name__}: {str(e)[:100]} ({dtype})")
+        return [], None
+    if Y.shape != (n, U.GDIM[name]) or not bool(torch.isfinite(Y).all()):
+        i = int((~torch.isfinite(Y).all(dim=-1)).nonzero()[0]) if Y.shape == (n, U.GDIM[name]) else -1
+        ctx.fail(case | {"mats": [case["mats"][i]] if i >= 0 else None, "item": i},
+                 f"finite: {name} conversion of a matrix with an exact coincidence ({case['tags'][i] if i >= 0 else '?'}) is not finite / has the wrong shape ({dtype}, atol={case['atol']})")
+        return [], None
+    if not torch.equal(singles, Y):
+        i = int((singles != Y).any(dim=-1).nonzero()[0])
+        ctx.fail(case | {"mats": [case["mats"][i]], "item": i}, f"batch: {name} conversion of the tie corpus differs between the batched and the per-item call at item {i} "
+                                                                 f"({case['tags'][i]}, {dtype})")
+    lines = [model_line(c2, M64, n)]
+
+    def finish(reps):
+        st, toks = common.parse_reply(reps[0])
+        if st != "ok":
+            ctx.disagree("tie", case | {"mats": None}, f"model error {toks} on the tie corpus ({name} {dtype})")
+            return
+        want = torch.tensor([float(common.from_wire(t)) for t in toks], dtype=torch.float64).reshape(n, U.GDIM[name])
+        qs = U.QSL[name]
+        for i in range(n):
+            sc = max(1.0, float(want[i, qs].norm()))
+            d_signed = float((Y[i, qs] - want[i, qs]).abs().max())
+            d_flip = float((Y[i, qs] + want[i, qs]).abs().max())
+            ctx.count("tie.items")
+            if not d_signed <= K_ROT * eps * sc:
+                what = "the OTHER sign (another candidate won the tie)" if d_flip <= K_ROT * eps * sc else f"a different value ({d_signed:.3e})"
+                ctx.disagree("tie", case | {"mats": [case["mats"][i]], "item": i},
+                             f"{name} {dtype} atol={case['atol']} lay {case['lay']} item {i} [{case['tags'][i]}]: code returns {what}: code {Y[i, qs].tolist()} model {want[i, qs].tolist()}")
+        ctx.note_case(("tie", name, dtype, case["lay"], case["atol"]), True)
+    return lines, finish
 
 
 # ----------------------------------------------------------------------------- call histories, stale reads, views and aliases
@@ -1424,6 +1596,20 @@ def callform_corpus():
                                     "api": api, "given": given, "kind": "shear", "factor": mag / max(a_, 1e-300), "bad_items": [pos], "mats": mats,
                                     "ci": ci, "corpus": True})
                     ci += 1
+            # every argument the form leaves to its default: deviations at 0.3x / 3x of the EFFECTIVE tolerance, of a kind only
+            # that argument's tolerance sees (diagonal: atol + rtol; off-diagonal: atol) — a changed default flips one of them
+            if form[1] is not None:
+                for kind_, fac_ in (("rowscale", 0.3), ("rowscale", 3.0), ("shear", 0.3), ("shear", 3.0)):
+                    api, given, c_, r_, a_ = effective(form, True, 1e-5, 1e-5)
+                    tol_ = (a_ + r_) / 2 if kind_ == "rowscale" else a_
+                    t, q, sc = good[ci % 3]
+                    X = P().LieTensor(torch.tensor(rows_of(src, list(t), list(q), sc if src == "Sim3" else 1.0), dtype=torch.float64), ltype=U.ltype(src))
+                    M = X.matrix().clone()
+                    M[:3, :3] = perturb(rng, M[:3, :3], kind_, tol_ * fac_)
+                    out_rej.append({"stream": "reject", "type": name, "dtype": "float64", "lay": "44", "check": c_, "rtol": r_, "atol": a_,
+                                    "api": api, "given": given, "kind": kind_, "factor": fac_, "bad_items": [0], "mats": [M.tolist()],
+                                    "ci": ci, "corpus": True})
+                    ci += 1
             # the same call form on valid input, special batch sizes
             api, given, c_, r_, a_ = effective(form, True, 1e-2, 1e-5)
             shape = SPECIAL_SHAPES[ci % len(SPECIAL_SHAPES)]
@@ -1647,9 +1833,263 @@ def run_modes(ctx: Ctx):
                 ctx.fail(base | {"variant": "atomic"}, f"raises: a valid {name} conversion around failing calls raised {type(e).__name__}: {str(e)[:100]} ({dtype})")
 
 
+
+
+def run_mode_orders(ctx: Ctx):
+    """(23) a module-level cache filled under one grad mode and read under another: for keys (entry point, dtype, batch
+    length) that are fresh in the process, the same call under inference_mode / no_grad / autograd (with backward) in all six
+    orders; every result must equal the per-item plain calls and the autograd call must back-propagate.
+    (24) round-off of a single step inside a long history: X -> from_matrix(X.matrix()) repeated 40 times, every step held to
+    the one-step bounds against the previous state (not to an n·eps drift allowance)."""
+    import itertools
+    p = P()
+    qs = corner_quats()
+    fresh = itertools.count(71)
+    for name in U.GROUPS + ["euler2SO3", "euler"]:
+        for dtype in ("float64", "float32"):
+            D = U.dt(dtype)
+            eps = common.EPS[dtype]
+            for order in itertools.permutations(["inference", "no_grad", "autograd"]):
+                n = next(fresh)                       # a batch length no other stream uses: the key is fresh for the first mode
+                case = {"stream": "modes", "fn": name, "dtype": dtype, "order": list(order), "n": n}
+                ctx.note_case(("mode-order", name, dtype, order), True)
+                try:
+                    if name in U.GROUPS:
+                        rows = [rows_of(name, [0.1 * i, -1.0, 2.0], qs[(3 * i + n) % len(qs)][0], [1.0, 0.05, 20.0][i % 3]) for i in range(n)]
+                        base = p.LieTensor(torch.tensor(rows, dtype=torch.float64).to(D), ltype=U.ltype(name)).matrix().clone()
+                        f = lambda m: p.from_matrix(m, U.ltype(name)).tensor()
+                    elif name == "euler2SO3":
+                        base = torch.tensor([[0.01 * i - 1.0, 0.02 * i - 0.7, 2.0 - 0.03 * i] for i in range(n)], dtype=torch.float64).to(D)
+                        f = lambda m: p.euler2SO3(m).tensor()
+                    else:
+                        base = torch.tensor([qs[(5 * i + n) % len(qs)][0] for i in range(n)], dtype=torch.float64).to(D)
+                        f = lambda m: p.SO3(m).euler()
+                    outs = {}
+                    for mode in order:
+                        with warnings.catch_warnings():
+                            warnings.simplefilter("ignore")
+                            if mode == "inference":
+                                with torch.inference_mode():
+                                    outs[mode] = f(base.clone()).clone()
+                            elif mode == "no_grad":
+                                with torch.no_grad():
+                                    outs[mode] = f(base.clone())
+                            else:
+                                x = base.clone().requires_grad_(True)
+                                o = f(x)
+                                o.sum().backward()
+                                if x.grad is None or not bool(torch.isfinite(x.grad).all()):
+                                    ctx.fail(case, f"modes: {name} ({dtype}) after {order[:order.index(mode)]}: the autograd call has no finite gradient")
+                                outs[mode] = o.detach()
+                    samp = sorted({0, 1, n // 3, n // 2, n - 2, n - 1})
+                    ref = torch.cat([f(base[i:i + 1].clone()) for i in samp], 0)
+                    for mode, o in outs.items():
+                        if tuple(o.shape[:1]) != (n,) or not bool(((o[samp].double() - ref.double()).abs().amax(-1) <= 4 * eps * max(1.0, float(ref.abs().max()))).all()):
+                            ctx.fail(case, f"modes: {name} ({dtype}, {n} items) under {mode} in the order {list(order)} differs from the per-item plain calls")
+                except Exception as e:
+                    ctx.fail(case, f"raises: {name} ({dtype}, {n} items) in the mode order {list(order)} raised {type(e).__name__}: {str(e)[:120]}")
+    # (24) every step of a conversion chain X -> from_matrix(X.matrix()) against the EXACT result of that step computed by the
+    # model from the code's own previous state (16 eps per step — not an n·eps drift allowance). The round trip multiplies the
+    # norm defect by (1 − c² + e)/(c² − e) ≤ ~3 per step (theorem `roundtrip_norm_amplification`), so the states stop being
+    # valid elements after a few steps: the property's unit-norm oracle applies only while the input is unit to 1 ulp.
+    for name in U.GROUPS:
+        for dtype in ("float64", "float32"):
+            D = U.dt(dtype)
+            eps = common.EPS[dtype]
+            rows = [rows_of(name, [0.3, -1.2, 2.5], qs[(7 * i + 2) % len(qs)][0], [1.0, 0.003, 700.0, 2.0][i % 4]) for i in range(8)]
+            X = p.LieTensor(torch.tensor(rows, dtype=torch.float64).to(D), ltype=U.ltype(name))
+            case = {"stream": "chain", "type": name, "dtype": dtype}
+            try:
+                for step in range(10):
+                    with warnings.catch_warnings():
+                        warnings.simplefilter("ignore")
+                        M = X.matrix()
+                        Y = p.from_matrix(M, U.ltype(name), check=False)
+                    a, b = Y.tensor().double(), X.tensor().double()
+                    c2 = {"type": name, "lay": "33" if name == "SO3" else "44", "check": False, "rtol": 1e-5, "atol": 1e-5, "api": "direct", "shape": [8]}
+                    rep = ctx.driver.run([model_line(c2, M.double(), 8)])[0]
+                    st, toks = common.parse_reply(rep)
+                    if st != "ok":
+                        ctx.disagree("chain", case | {"step": step}, f"model error {toks} at step {step}")
+                        break
+                    want = torch.tensor([float(common.from_wire(t)) for t in toks], dtype=torch.float64).reshape(8, U.GDIM[name])
+                    dq = torch.minimum((a[:, U.QSL[name]] - want[:, U.QSL[name]]).norm(dim=-1), (a[:, U.QSL[name]] + want[:, U.QSL[name]]).norm(dim=-1)).max().item()
+                    ds = ((a[:, U.SIDX[name]] - want[:, U.SIDX[name]]).abs() / want[:, U.SIDX[name]].abs()).max().item() if U.SIDX[name] is not None else 0.0
+                    ts = U.TSL[name] is None or torch.equal(a[:, U.TSL[name]], want[:, U.TSL[name]])
+                    valid_in = float((b[:, U.QSL[name]].norm(dim=-1) - 1).abs().max()) <= eps
+                    un = (a[:, U.QSL[name]].norm(dim=-1) - 1).abs().max().item()
+                    if valid_in and not un <= 8 * eps:
+                        ctx.fail(case | {"step": step, "state": b.tolist()}, f"unit: step {step} of a conversion chain ({name}, {dtype}): input unit to 1 ulp, output |‖q‖−1| = {un:.3e} > 8 eps")
+                    if not (dq <= K_ROT * eps and ds <= K_ROT * eps and ts):
+                        ctx.disagree("chain", case | {"step": step, "state": b.tolist()},
+                                     f"step {step} of a chain X -> from_matrix(X.matrix()) ({name}, {dtype}) differs from the exact result of that step: rotation {dq:.3e}, scale {ds:.3e}, translation equal={ts}")
+                        break
+                    X = Y
+                ctx.note_case(("chain", name, dtype), True)
+            except Exception as e:
+                ctx.fail(case, f"raises: conversion chain ({name}, {dtype}) raised {type(e).__name__}: {str(e)[:100]}")
+
+# ----------------------------------------------------------------------------- large batches (block / chunk boundaries)
+
+def run_large(ctx: Ctx):
+    """batches of 2^k, 2^k±1 items (one > 2^14 and one > 2^16 per entry point in quick, more in thorough), several shapes
+    with that count. Oracles that do not need the model on 10^5 items: split consistency f(x) == cat(f(x[:a]), f(x[a:])) bit
+    for bit, f(x)[i] == f(x[i:i+1]) for first / last / random items (per block to 4 eps: 1-ulp kernel differences between
+    the SIMD body and the scalar tail are not defects), the property's vectorised statement on every item,
+    and the model on a sample that includes the LAST item."""
+    p = P()
+    sizes = [4095, 4096, 16385, 65537] if ctx.quick else [1023, 4095, 4096, 4097, 8193, 16384, 16385, 32769, 65535, 65536, 65537, 131073]
+    rs = ctx.rng.choice([2 ** 12 + 1, 2 ** 13 - 1, 2 ** 15, 2 ** 15 + 1])       # one more, seed dependent
+    lines, metas = [], []
+    for n in sizes + [rs]:
+        g = torch.Generator().manual_seed(1000003 + n)
+        for name in U.GROUPS + ["euler2SO3", "euler"]:
+            dtype = "float64" if (n + len(name)) % 3 else "float32"
+            D = U.dt(dtype)
+            eps = common.EPS[dtype]
+            shape = (n,)
+            for a_ in (256, 17, 4):
+                if n % a_ == 0 and (n // a_) % 2 == 0:
+                    shape = (a_, n // a_)
+                    break
+            case = {"stream": "large", "fn": name, "n": n, "shape": list(shape), "dtype": dtype}
+            ctx.note_case(("large", name, n, dtype), True)
+            ctx.count(f"large.n={n}")
+            try:
+                q = torch.randn(n, 4, generator=g, dtype=torch.float64)
+                q[-1] = torch.tensor([0.0, 1.0, 0.0, 1e-9])                    # the LAST item: angle pi (w ~ 0)
+                q[0] = torch.tensor([0.5, 0.5, -0.5, 0.5])
+                q[n // 2] = torch.tensor([0.0, math.sqrt(0.5), 0.0, math.sqrt(0.5)])   # gimbal lock in the middle
+                q = q / q.norm(dim=-1, keepdim=True)
+                t = torch.randn(n, 3, generator=g, dtype=torch.float64) * 10
+                sc = torch.exp(torch.rand(n, 1, generator=g, dtype=torch.float64) * 13.8 - 6.9)    # 1e-3 .. 1e3
+                if name in U.GROUPS:
+                    rows = {"SO3": q, "SE3": torch.cat([t, q], -1), "RxSO3": torch.cat([q, sc], -1), "Sim3": torch.cat([t, q, sc], -1)}[name].to(D)
+                    X = p.LieTensor(rows.reshape(shape + (U.GDIM[name],)), ltype=U.ltype(name))
+                    arg = X.matrix().clone()
+                    item_shape = tuple(arg.shape[-2:])
+                    f = lambda m: p.from_matrix(m, U.ltype(name)).tensor()
+                    flat = lambda m: m.reshape((-1,) + item_shape)
+                elif name == "euler2SO3":
+                    ang = (torch.rand(n, 3, generator=g, dtype=torch.float64) * 2 - 1) * torch.tensor([math.pi, math.pi / 2, math.pi])
+                    ang[-1] = torch.tensor([math.pi, -math.pi / 2, -math.pi])
+                    arg = ang.to(D).reshape(shape + (3,))
+                    item_shape = (3,)
+                    f = lambda m: p.euler2SO3(m).tensor()
+                    flat = lambda m: m.reshape(-1, 3)
+                else:
+                    arg = q.to(D).reshape(shape + (4,))
+                    item_shape = (4,)
+                    f = lambda m: p.SO3(m).euler()
+                    flat = lambda m: m.reshape(-1, 4)
+                with warnings.catch_warnings():
+                    warnings.simplefilter("ignore")
+                    out = f(arg)
+                    od = out.shape[-1]
+                    if tuple(out.shape[:-1]) != shape or out.dtype != arg.dtype:
+                        ctx.fail(case, f"type: {name} on a batch of {n} items (lshape {shape}) returned shape {tuple(out.shape)} dtype {out.dtype}")
+                        continue
+                    of = out.reshape(-1, od)
+                    af = flat(arg)
+                    # split consistency (on the flat batch) for several cut points
+                    def differs(a_, b_):
+                        """items where two evaluations of the same inputs differ by more than kernel rounding (vectorised det / pow /
+                        sin / atan2 round differently in the SIMD body and the scalar tail: 1 ulp is not a defect): per block, 4 eps"""
+                        a_, b_ = a_.double(), b_.double()
+                        if name in U.GROUPS:
+                            bad_ = (a_[:, U.QSL[name]] - b_[:, U.QSL[name]]).abs().amax(-1) > 4 * eps
+                            if U.SIDX[name] is not None:
+                                bad_ |= ((a_[:, U.SIDX[name]] - b_[:, U.SIDX[name]]).abs() / b_[:, U.SIDX[name]].abs()) > 4 * eps
+                            if U.TSL[name] is not None:
+                                bad_ |= (a_[:, U.TSL[name]] != b_[:, U.TSL[name]]).any(-1)
+                            return bad_ | ~torch.isfinite(a_).all(-1)
+                        return ~((a_ - b_).abs().amax(-1) <= 4 * eps * math.pi)
+                    for cut in sorted({1, n // 2, n - 1, 2 ** int(math.log2(n)), 4096} & set(range(1, n))):
+                        parts = torch.cat([f(af[:cut].clone()), f(af[cut:].clone())], 0)
+                        if parts.shape != of.shape or bool(differs(parts, of).any()):
+                            i = int(differs(parts, of).nonzero()[0]) if parts.shape == of.shape else -1
+                            ctx.fail(case | {"cut": cut, "item": i}, f"split: {name} of {n} items ({dtype}) differs from cat(f(x[:{cut}]), f(x[{cut}:])) at item {i}: "
+                                                                       f"whole {of[i].tolist()} vs parts {parts[i].tolist()}")
+                            break
+                    idx = sorted({0, 1, n // 2, n - 2, n - 1} | {ctx.rng.randrange(n) for _ in range(3)})
+                    for i in idx:
+                        one = f(af[i:i + 1].clone())[0]
+                        if bool(differs(one[None], of[i][None]).any()):
+                            ctx.fail(case | {"item": i}, f"item: {name} of {n} items ({dtype}): item {i} of the batched result {of[i].tolist()} differs from the call on that item alone {one.tolist()}")
+                            break
+                    # the property's statement on every item, vectorised
+                    o64 = of.double()
+                    if not bool(torch.isfinite(o64).all()):
+                        i = int((~torch.isfinite(o64).all(dim=-1)).nonzero()[0])
+                        ctx.fail(case | {"item": i}, f"finite: {name} of {n} items ({dtype}): item {i} of the result is not finite")
+                        continue
+                    if name in U.GROUPS:
+                        r64 = rows.double()
+                        qY, qX = o64[:, U.QSL[name]], r64[:, U.QSL[name]]
+                        dq = torch.minimum((qY - qX).norm(dim=-1), (qY + qX).norm(dim=-1))
+                        un = (qY.norm(dim=-1) - 1).abs()
+                        bad_i = None
+                        if not bool((dq <= K_ROT * eps).all()):
+                            bad_i, what = int(dq.argmax()), f"quaternion differs from X by {float(dq.max()):.3e} > 16 eps"
+                        elif not bool((un <= 8 * eps).all()):
+                            bad_i, what = int(un.argmax()), f"|‖q‖−1| = {float(un.max()):.3e} > 8 eps"
+                        elif U.SIDX[name] is not None and not bool((((o64[:, U.SIDX[name]] - r64[:, U.SIDX[name]]).abs() / r64[:, U.SIDX[name]]) <= K_ROT * eps).all()):
+                            ds = (o64[:, U.SIDX[name]] - r64[:, U.SIDX[name]]).abs() / r64[:, U.SIDX[name]]
+                            bad_i, what = int(ds.argmax()), f"relative scale error {float(ds.max()):.3e} > 16 eps"
+                        elif U.TSL[name] is not None and not torch.equal(o64[:, U.TSL[name]], af[:, :3, 3].double()):
+                            bad_i, what = int((o64[:, U.TSL[name]] != af[:, :3, 3].double()).any(dim=-1).nonzero()[0]), "translation is not the last column of the input"
+                        if bad_i is not None:
+                            ctx.fail(case | {"item": bad_i, "row": r64[bad_i].tolist()}, f"large: {name} of {n} items ({dtype}), item {bad_i}: {what}")
+                        samp = sorted({0, n // 2, n - 1, ctx.rng.randrange(n)})
+                        c2 = {"type": name, "lay": "33" if name == "SO3" else "44", "check": True, "rtol": 1e-5, "atol": 1e-5, "api": "defaults", "ci": 1, "shape": [len(samp)]}
+                        lines.append(model_line(c2, af[samp].double(), len(samp)))
+                        metas.append((case, name, dtype, o64[samp], samp))
+                    elif name == "euler2SO3":
+                        back = p.SO3(of).matrix().double()
+                        a64 = af.double()
+                        cr, sr, cp, sp, cy, sy = a64[:, 0].cos(), a64[:, 0].sin(), a64[:, 1].cos(), a64[:, 1].sin(), a64[:, 2].cos(), a64[:, 2].sin()
+                        ref = torch.stack([torch.stack([cy * cp, cy * sp * sr - sy * cr, cy * sp * cr + sy * sr], -1),
+                                           torch.stack([sy * cp, sy * sp * sr + cy * cr, sy * sp * cr - cy * sr], -1),
+                                           torch.stack([-sp, cp * sr, cp * cr], -1)], -2)
+                        dm = (back - ref).abs().amax(dim=(-1, -2))
+                        if not bool((dm <= K_ROT * eps).all()):
+                            i = int(dm.argmax())
+                            ctx.fail(case | {"item": i, "angles": a64[i].tolist()}, f"large: euler2SO3 of {n} items ({dtype}), item {i}: matrix differs from Rz·Ry·Rx by {float(dm.max()):.3e} > 16 eps")
+                    else:
+                        q64 = af.double()
+                        t2 = 2 * (q64[:, 3] * q64[:, 1] - q64[:, 2] * q64[:, 0]) / (q64 * q64).sum(-1)
+                        reg = t2.abs() < 1 - 2e-4 - 64 * eps
+                        back = p.euler2SO3(of).tensor().double()
+                        dq = torch.minimum((back - q64).norm(dim=-1), (back + q64).norm(dim=-1))
+                        lim = K_ROT * eps / (1 - t2 * t2).clamp_min(1e-6).sqrt()
+                        badm = reg & ~(dq <= lim)
+                        if bool(badm.any()):
+                            i = int(badm.nonzero()[0])
+                            ctx.fail(case | {"item": i, "q": q64[i].tolist()}, f"large: euler() of {n} items ({dtype}), item {i}: euler2SO3(X.euler()) differs from X by {float(dq[i]):.3e} > 16 eps / cos pitch")
+            except Exception as e:
+                ctx.fail(case, f"raises: {name} on a batch of {n} items (lshape {shape}, {dtype}) raised {type(e).__name__}: {str(e)[:120]}")
+    reps = ctx.driver.run(lines)
+    for rep, (case, name, dtype, got, samp) in zip(reps, metas):
+        eps = common.EPS[dtype]
+        st, toks = common.parse_reply(rep)
+        if st != "ok":
+            ctx.disagree("large", case, f"model rejects ({toks}) sampled items {samp} of a valid batch")
+            continue
+        want = torch.tensor([float(common.from_wire(t)) for t in toks], dtype=torch.float64).reshape(len(samp), U.GDIM[name])
+        dq = torch.minimum((got[:, U.QSL[name]] - want[:, U.QSL[name]]).norm(dim=-1), (got[:, U.QSL[name]] + want[:, U.QSL[name]]).norm(dim=-1))
+        okk = bool((dq <= K_ROT * eps).all())
+        if U.SIDX[name] is not None:
+            okk &= bool((((got[:, U.SIDX[name]] - want[:, U.SIDX[name]]).abs() / want[:, U.SIDX[name]].abs()) <= K_ROT * eps).all())
+        if U.TSL[name] is not None:
+            okk &= torch.equal(got[:, U.TSL[name]], want[:, U.TSL[name]])
+        if not okk:
+            ctx.disagree("large", case | {"items": samp}, f"{name} of {case['n']} items ({dtype}): sampled items {samp} (incl. the last) differ from the model: q {float(dq.max()):.3e}")
+
+
 # ----------------------------------------------------------------------------- entry points
 
 def run(ctx: Ctx):
+    torch.set_num_threads(1)     # tiny tensors everywhere; on the shared box OpenMP spin-waits cost minutes (LU of 65537 3x3 blocks)
     from . import util_lie as _UL
     def _reads(name):
         return {"euler": lambda o: o.euler(), "matrix": lambda o: o.matrix(),
@@ -1658,6 +2098,8 @@ def run(ctx: Ctx):
     run_corpus(ctx)          # deterministic corner corpus first: detection never depends on the seed
     run_history(ctx)
     run_modes(ctx)
+    run_mode_orders(ctx)
+    run_large(ctx)
     run_dispatch(ctx)
     run_kernel(ctx, ctx.pick(150, 1500))
     run_roundtrip(ctx, ctx.pick(450, 9000))
